@@ -1073,3 +1073,169 @@ Proof.
     + apply (I3 _ Hin Hns).
 Qed.
 
+(* ======================================================================= *)
+(* I. the `unreachable!()` of pass 2 is unreachable                          *)
+(* ======================================================================= *)
+
+Lemma fail_panic : forall {A} c m msg s, @fail A c m msg = DPanic s -> s = site_report_file_id.
+Proof. intros A c m msg s. unfold fail, mk_report. destruct (m_file m); simpl; congruence. Qed.
+
+Lemma dbind_panic : forall {A B} (m : dres A) (f : A -> dres B) s,
+  dbind m f = DPanic s -> m = DPanic s \/ exists a, m = DOk a /\ f a = DPanic s.
+Proof.
+  intros A B [a|r|s'|] f s H; simpl in H; try discriminate.
+  - right. eauto.
+  - left. congruence.
+Qed.
+
+Definition not_anon_site (s : Z) : Prop := s <> site_rte_anon.
+
+Lemma unfold_values_panic : forall results acc s,
+  unfold_values results acc = DPanic s -> In (DPanic s) results.
+Proof.
+  induction results as [|r rest IH]; intros acc s H; simpl in H; [discriminate|].
+  apply dbind_panic in H. destruct H as [->|(a & -> & H)]; [left; auto|].
+  right. destruct a; eauto.
+Qed.
+
+Lemma rte_no_unreachable : forall e s, NA e ->
+  remove_tuple_from_expression e = DPanic s -> s = site_report_file_id.
+Proof.
+  induction e using expression_ind'; intros s Hna Hp; cbn [remove_tuple_from_expression] in Hp;
+    try (match type of Hp with (if ?c then _ else _) = _ => destruct c end;
+         [eapply fail_panic; eauto | discriminate]).
+  - discriminate.
+  - apply CL_node in Hna. discriminate.
+  - apply dbind_panic in Hp. destruct Hp as [Hp|(a & _ & Hp)]; [|discriminate].
+    apply unfold_values_panic in Hp. apply in_map_iff in Hp. destruct Hp as (x & Hx & Hin).
+    apply CL_tuple_inv in Hna. rewrite Forall_forall in *. eapply H; eauto.
+Qed.
+
+Lemma tuple_substs_panic : forall m o ls rs acc s,
+  List.length ls = List.length rs ->
+  tuple_substs m o ls rs acc = DPanic s -> s = site_report_file_id.
+Proof.
+  intros m o. induction ls as [|l ls IH]; intros rs acc s Hlen H; simpl in H; [discriminate|].
+  destruct l; try (eapply fail_panic; eauto; fail).
+  destruct rs as [|r rs]; [discriminate Hlen|]. eapply IH; [|exact H]. simpl in Hlen. lia.
+Qed.
+
+Definition pass2_site (s : Z) : Prop := s = site_report_file_id \/ s = site_split_at.
+
+Lemma split_string_S : forall fuel c str',
+  split_string (S fuel) (String c str') =
+  let cur := String c str' in
+  let k := Nat.min sub_len (String.length cur) in
+  if starts_char (drop_bytes k cur)
+  then dbind (split_string fuel (drop_bytes k cur)) (fun v => DOk (LogStr (take_bytes k cur) :: v))
+  else DPanic site_split_at.
+Proof. reflexivity. Qed.
+
+Lemma split_string_panic : forall fuel str s, split_string fuel str = DPanic s -> s = site_split_at.
+Proof.
+  induction fuel as [|fuel IH]; intros str s H.
+  - destruct str; discriminate.
+  - destruct str as [|c str']; [discriminate|]. rewrite split_string_S in H. cbv zeta in H.
+    match type of H with (if ?c then _ else _) = _ => destruct c end; [|congruence].
+    apply dbind_panic in H. destruct H as [H|(a & _ & H)]; [eauto | discriminate].
+Qed.
+Arguments split_string : simpl never.
+
+Lemma build_log_args_panic : forall args s, build_log_args args = DPanic s -> s = site_split_at.
+Proof.
+  induction args as [|a rest IH]; intros s H; simpl in H; [discriminate|].
+  destruct a as [str|e].
+  - apply dbind_panic in H. destruct H as [H|(c & _ & H)]; [eapply split_string_panic; eauto|].
+    apply dbind_panic in H. destruct H as [H|(v & _ & H)]; [eauto | discriminate].
+  - apply dbind_panic in H. destruct H as [H|(v & _ & H)]; [eauto | discriminate].
+Qed.
+
+Lemma check_log_args_panic : forall args s,
+  Forall (log_all (fun x => NA x /\ is_tuple x = false)) args ->
+  check_log_args args = DPanic s -> s = site_report_file_id.
+Proof.
+  induction args as [|a rest IH]; intros s Hall H; simpl in H; [discriminate|].
+  inversion Hall; subst. destruct a as [str|x]; [eauto|].
+  apply dbind_panic in H. destruct H as [H|(v & _ & H)]; [|eauto].
+  simpl in H2. eapply rte_no_unreachable; [exact (proj1 H2)|exact H].
+Qed.
+
+Lemma log_new_args_panic : forall args acc s,
+  Forall (log_all NA) args -> log_new_args args acc = DPanic s -> s = site_report_file_id.
+Proof.
+  induction args as [|a rest IH]; intros acc s Hna H; simpl in H; [discriminate|].
+  inversion Hna; subst. destruct a as [str|x]; [eauto|].
+  apply dbind_panic in H. destruct H as [H|(v & _ & H)]; [|eauto].
+  unfold separate_tuple_for_log_call in H. simpl in H. rewrite app_nil_r in H.
+  eapply check_log_args_panic; [|exact H]. apply sep_log_spec; auto.
+Qed.
+
+Lemma rts_list_panic : forall (f : statement -> dres statement) (P : Z -> Prop) l acc s,
+  Forall (fun x => forall s, f x = DPanic s -> P s) l ->
+  rts_list f l acc = DPanic s -> P s.
+Proof.
+  intros f P. induction l as [|x rest IH]; intros acc s Hl H; simpl in H; [discriminate|].
+  inversion Hl; subst. apply dbind_panic in H. destruct H as [H|(v & _ & H)]; eauto.
+Qed.
+
+(* on the output of pass 1, pass 2 panics at most in into_report (a meta without
+   file id) or in split_string: never in `unreachable!()` and never in
+   `rhe_values.remove(0)` *)
+Lemma rts_panic_sites : forall st s, NAs st ->
+  remove_tuples_from_statement st = DPanic s -> pass2_site s.
+Proof.
+  induction st using statement_ind'; intros s Hna Hp; cbn [remove_tuples_from_statement] in Hp.
+  - apply CLs_if in Hna. destruct Hna as (Hc & Hi & He).
+    destruct (contains_tuple c); [left; eapply fail_panic; eauto|].
+    apply dbind_panic in Hp. destruct Hp as [Hp|(a & _ & Hp)]; [eauto|].
+    destruct e as [e'|]; [|discriminate].
+    apply dbind_panic in Hp. destruct Hp as [Hp|(b & _ & Hp)]; [|discriminate]. eapply H; eauto.
+  - apply CLs_while in Hna. destruct Hna as (Hc & Hb).
+    destruct (contains_tuple c); [left; eapply fail_panic; eauto|].
+    apply dbind_panic in Hp. destruct Hp as [Hp|(a & _ & Hp)]; [eauto|discriminate].
+  - destruct (contains_tuple v); [left; eapply fail_panic; eauto|discriminate].
+  - apply dbind_panic in Hp. destruct Hp as [Hp|(a & _ & Hp)]; [|discriminate].
+    eapply rts_list_panic; [|exact Hp]. apply CLs_init in Hna. rewrite Forall_forall in *. intros x Hx s0 Hs0. eapply H; eauto.
+  - destruct (existsb contains_tuple d); [left; eapply fail_panic; eauto|discriminate].
+  - apply CLs_sub in Hna. destruct Hna as [Hacc Hr].
+    apply dbind_panic in Hp. destruct Hp as [Hp|(e' & _ & Hp)]; [left; exact (rte_no_unreachable _ _ Hr Hp)|].
+    destruct (is_tuple e'); [left; eapply fail_panic; eauto|].
+    destruct (access_first_such contains_tuple a); [left; eapply fail_panic; eauto|].
+    destruct (negb (String.eqb v "_")); discriminate.
+  - apply CLs_msub in Hna. destruct Hna as [Hl Hr].
+    apply dbind_panic in Hp. destruct Hp as [Hp|(l' & _ & Hp)]; [left; exact (rte_no_unreachable _ _ Hl Hp)|].
+    apply dbind_panic in Hp. destruct Hp as [Hp|(r' & _ & Hp)]; [left; exact (rte_no_unreachable _ _ Hr Hp)|].
+    left.
+    destruct l' as [| | | | | | | | |ml lvals];
+      try solve [match type of Hp with (if ?c then _ else _) = _ => destruct c end; eapply fail_panic; eauto].
+    destruct r' as [| | | | | | | | |mr rvals];
+      try solve [match type of Hp with (if ?c then _ else _) = _ => destruct c end; eapply fail_panic; eauto].
+    destruct (Nat.eqb (List.length lvals) (List.length rvals)) eqn:El.
+    + apply dbind_panic in Hp. destruct Hp as [Hp|(b & _ & Hp)]; [|discriminate].
+      eapply tuple_substs_panic; [|exact Hp]. apply Nat.eqb_eq; auto.
+    + destruct (negb (is_nil lvals)); eapply fail_panic; eauto.
+  - destruct (contains_tuple l || contains_tuple r); [left; eapply fail_panic; eauto|discriminate].
+  - apply CLs_log in Hna.
+    apply dbind_panic in Hp. destruct Hp as [Hp|(na & _ & Hp)]; [left; eapply log_new_args_panic; eauto|].
+    unfold build_log_call in Hp. apply dbind_panic in Hp. destruct Hp as [Hp|(b & _ & Hp)]; [|discriminate].
+    right. eapply build_log_args_panic; eauto.
+  - apply dbind_panic in Hp. destruct Hp as [Hp|(a & _ & Hp)]; [|discriminate].
+    eapply rts_list_panic; [|exact Hp]. apply CLs_block in Hna. rewrite Forall_forall in *. intros x Hx s0 Hs0. eapply H; eauto.
+  - destruct (contains_tuple a); [left; eapply fail_panic; eauto|discriminate].
+Qed.
+
+Theorem pass2_unreachable_never_fires : forall env lib body m stmts decls c v su s,
+  remove_anonymous_from_statement env lib None body = DOk (Block m stmts, decls) ->
+  separate_declarations decls [] [] [] = DOk (c, v, su) ->
+  remove_tuples_from_statement
+    (Block m ([InitializationBlock m VVar v] ++ su ++ [InitializationBlock m VComponent c] ++ stmts)) = DPanic s ->
+  s = site_report_file_id \/ s = site_split_at.
+Proof.
+  intros env lib body m stmts decls c v su s H1 H2 H3.
+  destruct (ras_na env lib body None I _ _ H1) as [Hs Hd].
+  eapply separate_declarations_forall in H2; eauto. destruct H2 as (Hc & Hv & Hsub).
+  eapply rts_panic_sites; [|exact H3].
+  apply CLs_block. apply CLs_block in Hs. simpl.
+  constructor; [apply CLs_init; auto|]. apply Forall_app. split; auto.
+  constructor; [apply CLs_init; auto|]. auto.
+Qed.
